@@ -58,6 +58,23 @@ def _diff_summary(p1, p2):
     return s
 
 
+TOOLCHAIN_FILES = ("dora", "dora-cannon-compiler", "dora-boots-compiler", "libdora_runtime.a", "libdora_startup.a")
+
+
+def toolchain_stamp():
+    """Identity of the binaries a build uses. Other checks may rebuild the shared toolchain while this one runs (the
+    repository under test moves); builds made by different toolchains are not builds 'with the same options'."""
+    d = build.bindir("rel")
+    out = []
+    for n in TOOLCHAIN_FILES:
+        try:
+            st = os.stat(os.path.join(d, n))
+        except OSError:
+            return None
+        out.append((n, st.st_size, st.st_mtime_ns))
+    return tuple(out)
+
+
 class Group:
     """All builds of one (input, artifact kind, backend, collector, target)."""
 
@@ -65,6 +82,7 @@ class Group:
         self.src, self.kind, self.backend, self.gc, self.arch, self.extra, self.timeout = src, kind, backend, gc, arch, list(extra), timeout
         self.gid = sha(src, kind, backend, gc, arch, " ".join(extra))[:14]
         self.builds = {}     # scenario -> (sha, size) | ("FAILED", rc, err)
+        self.stamps = {}     # scenario -> toolchain stamp the build was made with
         self.kept = {}       # scenario -> path (only while needed)
         self.lock = threading.Lock()
 
@@ -95,7 +113,7 @@ def build_once(g, scenario, work, slot):
         cwd, out, tmp = d, "out", os.path.join(work, "tmp")
         written = os.path.join(d, "out" + g.suffix())
     elif scenario == "dirty":
-        d = os.path.join(work, "dirty", "slot%d" % slot)
+        d = os.path.join(work, "dirty", g.gid)
         os.makedirs(d, exist_ok=True)
         # stale outputs of other programs under the same names, and a same-named source of another program
         for stale in ("out", "out.s", "out.dora-package", base[:-5] + ".dora-package", "out.o"):
@@ -106,15 +124,15 @@ def build_once(g, scenario, work, slot):
         with open(os.path.join(d, base), "w") as fh:
             fh.write(JUNK_SRC)
         cwd, out = d, os.path.join(d, "out")
-        tmp = os.path.join(d, "tmp-with-a-rather-long-name-%d" % slot)
+        tmp = os.path.join(d, "tmp-with-a-rather-long-name")
         written = out + g.suffix()
     else:  # deep
-        cwd = os.path.join(work, "deep", "slot%d" % slot, "a", "b b", "c")
+        cwd = os.path.join(work, "deep", g.gid, "a", "b b", "c")
         os.makedirs(cwd, exist_ok=True)
         od = os.path.join(work, "o3", g.gid)
         os.makedirs(od, exist_ok=True)
         out = os.path.join(od, "a-much-longer-output-name-%s-bin" % g.gid)
-        tmp = os.path.join(work, "t3", "slot%d" % slot)
+        tmp = os.path.join(work, "t3", g.gid)
         written = out + g.suffix()
     try:
         os.unlink(written)
@@ -135,7 +153,20 @@ def run_group(args):
     g, scenarios, work, ctxlock, results = args
     slot = threading.get_ident() % 100000
     for sc in scenarios:
-        path, rc, err = build_once(g, sc, work, slot)
+        for attempt in range(3):
+            st0 = toolchain_stamp()
+            path, rc, err = build_once(g, sc, work, slot)
+            st1 = toolchain_stamp()
+            if st0 is not None and st0 == st1:
+                break
+            time.sleep(5)       # the toolchain was being replaced during this build: do it again
+            if path is not None:
+                try:
+                    os.unlink(path)
+                except OSError:
+                    pass
+            path, rc, err = None, None, "toolchain changed during the build"
+        g.stamps[sc] = st1 if st0 == st1 else None
         if path is None:
             g.builds[sc] = ("FAILED", rc, (err or "")[-300:])
             continue
@@ -156,6 +187,18 @@ SAME_CONDITIONS = (("clean", "again"), ("dirty", "dirty2"), ("deep", "deep2"))
 
 
 def judge(ctx, g, work=None):
+    if len(set(g.stamps.values())) > 1 or None in g.stamps.values():
+        # the shared toolchain was rebuilt between the builds of this group: start the group over (once)
+        ctx.count("groups_restarted_after_toolchain_change")
+        ctx.count("builds", len(g.builds))
+        scs = list(g.builds)
+        drop_kept(g)
+        g.builds, g.stamps = {}, {}
+        if work is not None:
+            run_group((g, scs, work, None, None))
+        if len(set(g.stamps.values())) != 1 or None in g.stamps.values():
+            ctx.inconc("toolchain kept changing while building %s" % g.name())
+            return
     ok = {sc: v for sc, v in g.builds.items() if v[0] != "FAILED"}
     failed = {sc: v for sc, v in g.builds.items() if v[0] == "FAILED"}
     ctx.count("builds", len(g.builds))
@@ -189,6 +232,9 @@ def judge(ctx, g, work=None):
             if first in ok and second not in g.builds:
                 run_group((g, [second], work, None, None))
         ctx.count("builds", len(g.builds) - len(ok))
+        if len(set(g.stamps.values())) != 1 or None in g.stamps.values():
+            ctx.inconc("toolchain changed while re-building %s after a mismatch" % g.name())
+            return
         ok = {sc: v for sc, v in g.builds.items() if v[0] != "FAILED"}
         hashes = {}
         for sc, (h, n) in ok.items():
@@ -212,13 +258,16 @@ def judge(ctx, g, work=None):
                   files=files, cmd=" ".join(_cmd(g, "out")))
 
 
-def drop_kept(g):
+def drop_kept(g, work=None):
     for (h, p) in g.kept.values():
         try:
             os.unlink(p)
         except OSError:
             pass
     g.kept = {}
+    if work is not None:
+        for sub in ("clean", "dirty", "deep", "o3", "t3"):
+            shutil.rmtree(os.path.join(work, sub, g.gid), ignore_errors=True)
 
 
 class Deferred:
@@ -240,8 +289,22 @@ class Deferred:
 
 
 def bootstrap_chain(ctx, work, thorough):
+    for attempt in range(3):
+        rec = Deferred()
+        st0 = toolchain_stamp()
+        bootstrap_chain_once(rec, work, thorough)
+        if st0 is not None and st0 == toolchain_stamp():
+            ctx.calls += rec.calls
+            ctx.extra.update(rec.extra)
+            return
+        shutil.rmtree(os.path.join(work, "bootstrap"), ignore_errors=True)
+    ctx.inconc("toolchain kept changing during the bootstrap chain")
+
+
+def bootstrap_chain_once(ctx, work, thorough):
     """stage1 (baseline-built) -> stage2 -> stage3; boots-built stage1 and its stage2. All from one package."""
     d = os.path.join(work, "bootstrap")
+    shutil.rmtree(d, ignore_errors=True)
     os.makedirs(d)
     tmp = os.path.join(d, "tmp")
     dora = build.dora("rel")
@@ -320,11 +383,14 @@ def run(ctx):
         groups.append(Group(p, "package", "-", None, None))
         for backend in ("cannon", "boots"):
             for gc in ("swiper", "copy"):
-                # quick: every program is linked with two of the four (generator, collector) pairs, alternating
-                if not ctx.quick() or i < 4 or ((backend == "cannon") == (gc == "swiper")) == (i % 2 == 0):
+                # quick: every program gets two of the four (generator, collector) pairs, alternating; the touch
+                # programs and the thorough tier get all four
+                diag = ((backend == "cannon") == (gc == "swiper")) == (i % 2 == 0)
+                if not ctx.quick() or i < 4 or diag:
                     groups.append(Group(p, "exe", backend, gc, None))
-                # .s: both collectors for x64; arm64 (optimizing generator only) alternates the collector
-                groups.append(Group(p, "asm", backend, gc, "x64"))
+                if not ctx.quick() or i < 4 or not diag:
+                    groups.append(Group(p, "asm", backend, gc, "x64"))
+                # arm64 .s (optimizing generator only) alternates the collector
                 if backend == "boots" and (gc == "swiper") == (i % 2 == 0):
                     groups.append(Group(p, "asm", backend, gc, "arm64"))
     heavy = []
@@ -364,7 +430,7 @@ def run(ctx):
     with ThreadPoolExecutor(max_workers=NCPU) as ex:
         for g in ex.map(run_group, argl):
             judge(ctx, g, work)
-            drop_kept(g)
+            drop_kept(g, work)
     ctx.count("builds_with_many_in_flight", sum(len(a[1]) for a in argl))
     ctx.count("distinct_inputs", len(programs) + 3)
     ctx.count("processes", ctx.counters.get("builds", 0))
@@ -384,5 +450,5 @@ def run(ctx):
     boot_thread.join()
     boot.replay(ctx)
     ctx.required_counters = ["groups_package", "groups_asm", "groups_exe", "bootstrap_comparisons", "builds_with_one_in_flight", "hashes_compared"]
-    ctx.min_distinct = ctx.pick(200, 1500)
+    ctx.min_distinct = ctx.pick(150, 1500)
     shutil.rmtree(work, ignore_errors=True)
